@@ -29,6 +29,7 @@ ASSUMPTIONS = ['deterministic estimators only (shuffle_nodes=False; solvers with
                'Louvain / Leiden with modularity="dugue" document Barber\'s modularity (directed block) for bipartite '
                'input: recorded as known finding F-C03-barber, and additionally checked against the directed block']
 TOL = 1e-8
+DRIVE_MODULES = ['SkNet.Drive.C03', 'SkNet.Drive.C10']
 
 
 # ------------------------------------------------------------------------------------------------
@@ -411,12 +412,33 @@ def run(ctx):
     mats = _matrices(ctx, quick)
     relation_cases(ctx, mats, seeds_per=2 if quick else 4)
     structure_cases(ctx, mats)
+    routing_cases(ctx, quick)
+
+
+def routing_cases(ctx, quick, sub=None):
+    """get_distances / get_shortest_path on biadjacency matrices (source / source_row / source_col / transpose /
+    force_bipartite): the run and spec lines of the path model (C10's handlers; theorems C03.distances_bipartite,
+    C03.shortestPath_bipartite)."""
+    from harness import c10
+    rng = ctx.rng
+    cases = []
+    shapes = [(1, 2), (2, 1), (2, 2), (2, 3), (3, 2), (3, 4)]
+    for nr, nc in shapes:
+        allb = list(graphs.all_bipartite(nr, nc))
+        k = 10 if quick else 200
+        if len(allb) > k:
+            allb = rng.sample(allb, k)
+        for es in allb:
+            b = c10._mk(nr, es, [1] * len(es), m=nc)
+            cases += c10.cases_for_bigraph(ctx, b, rng, full=not quick)
+    c10.evaluate(sub or ctx, cases)
 
 
 def search(ctx, pending):
     sub = Sub(ctx)
     mats = _matrices(ctx, False)[:120]
     relation_cases(ctx, mats, seeds_per=3, sub=sub)
+    routing_cases(ctx, True, sub=sub)
     return sub.found()
 
 
